@@ -163,7 +163,7 @@ fn pair_systems(names: &[(&str, &str)], inits: &[bool]) -> Vec<PairSpec> {
         let progs = programs(wf);
         let get = |n: &str| progs.iter().find(|(k, _)| *k == n).map(|(_, p)| p.clone()).unwrap_or_else(|| machinery_error(format!("no program {n}")));
         for (a, b) in names {
-            out.push(PairSpec { name: format!("{a}||{b} on {}", if wf { "{f:c0}" } else { "{}" }), sys: System { init: init_tree(wf), programs: vec![get(a), get(b)] } });
+            out.push(PairSpec { name: format!("{a}||{b} on {}", if wf { "{f:c0}" } else { "{}" }), sys: System { init: init_tree(wf), programs: vec![get(a), get(b)], external: vec![] } });
         }
     }
     out
@@ -341,7 +341,7 @@ fn malformed_systems() -> Vec<PairSpec> {
             }
         });
         for (n, bad) in [("bad-hash", bad_hash), ("short-content", short_content), ("excess-length", excess), ("zero-len-with-bytes", zero_len)] {
-            out.push(PairSpec { name: format!("malformed {n} || Get,List on {}", if wf { "{f:c0}" } else { "{}" }), sys: System { init: init_tree(wf), programs: vec![vec![bad], vec![Op::Get { path: "f".into() }, Op::List]] } });
+            out.push(PairSpec { name: format!("malformed {n} || Get,List on {}", if wf { "{f:c0}" } else { "{}" }), sys: System { init: init_tree(wf), programs: vec![vec![bad], vec![Op::Get { path: "f".into() }, Op::List]], external: vec![] } });
         }
     }
     out
@@ -351,8 +351,8 @@ fn triple_systems() -> Vec<PairSpec> {
     let progs = programs(true);
     let get = |n: &str| progs.iter().find(|(k, _)| *k == n).map(|(_, p)| p.clone()).unwrap_or_default();
     vec![
-        PairSpec { name: "P1||P2||P4 on {f:c0}".into(), sys: System { init: init_tree(true), programs: vec![get("P1"), get("P2"), get("P4")] } },
-        PairSpec { name: "P1||P2||P5 on {f:c0}".into(), sys: System { init: init_tree(true), programs: vec![get("P1"), get("P2"), get("P5")] } },
-        PairSpec { name: "P3||P9||P6 on {f:c0}".into(), sys: System { init: init_tree(true), programs: vec![get("P3"), get("P9"), get("P6")] } },
+        PairSpec { name: "P1||P2||P4 on {f:c0}".into(), sys: System { init: init_tree(true), programs: vec![get("P1"), get("P2"), get("P4")], external: vec![] } },
+        PairSpec { name: "P1||P2||P5 on {f:c0}".into(), sys: System { init: init_tree(true), programs: vec![get("P1"), get("P2"), get("P5")], external: vec![] } },
+        PairSpec { name: "P3||P9||P6 on {f:c0}".into(), sys: System { init: init_tree(true), programs: vec![get("P3"), get("P9"), get("P6")], external: vec![] } },
     ]
 }
